@@ -144,3 +144,12 @@ def register(check):
           floors={"quick": {"settings_runs": 100, "settings_expect_ok": 40, "settings_expect_error": 30, "settings_expect_blocked": 4, "legacy_client_runs": 4, "legacy_server_runs": 4, "interop_rpcs_checked": 150, "legacy_rpcs_checked": 16, "rpcs": 40},
                   "thorough": {"settings_runs": 4000, "interop_rpcs_checked": 6000, "legacy_rpcs_checked": 600}},
           assumptions=COMMON_ASSUMPTIONS + ["an endpoint with flow control disabled still advertises negotiation and exchanges settings listing only revision zero: conformant, not flagged"])
+    check("C12",
+          level="exploration",
+          rule="PRNG histories of 12-31 steps over 3-6 tunnel slots with affinity keys {a,a,b,nil,a,b}: open, stop from the client end, Close from the server end, transport break, cancel of the opener's context, tunnel dying during registration (break while the handler is parked between its registration steps), "
+               "WaitForReady on every key, and routing bursts (n..2n RPCs through AsChannel / KeyAsChannel) ; a model of the open set is compared with AllReverseTunnels, Ready, the verif registry lengths and pending WaitForReady calls at every quiescent point; with and without parks at the five registration yield points; "
+               "non-trivial = at least one quiescent comparison; distinct = distinct (cfg, op/outcome shape of the routed RPCs)",
+          nontrivial="registry_quiescent_checks",
+          floors={"quick": {"registry_runs": 700, "registry_quiescent_checks": 5000, "registry_routed_rpcs": 2000, "registry_rr_windows": 1000, "registry_died_during_registration": 150, "registry_waiters_released": 100, "registry_unroutable_rpcs": 200, "yield:rev.open.betweenAdds": 1000},
+                  "thorough": {"registry_runs": 11000, "registry_quiescent_checks": 200000, "registry_routed_rpcs": 80000}},
+          assumptions=COMMON_ASSUMPTIONS + ["quiescent consistency is what the property states; linearizability of the two-level registry is not demanded (DESIGN.md C12)"])
